@@ -75,9 +75,14 @@ MUTANTS = [
      "        self.build_database()\n        return self.database",
      "        self.build_database()\n        PyDBMLParser.last = self\n        return self.database", "passes",
      "library keeps a reference to the last parser (and its database)"),
-    ("c11-negative-control-packrat", "C11", "pydbml/parser/parser.py",
+    ("c11-packrat-at-import", "C11", "pydbml/parser/parser.py",
      "_grammar_lock = RLock()", "_grammar_lock = RLock()\npp.ParserElement.enable_packrat()", "passes",
-     "NEGATIVE CONTROL: packrat under the lock changes nothing observable; must stay silent"),
+     "planned as a negative control, but with packrat the first (cold) parse of many valid documents raises "
+     "RuntimeError while later parses succeed: genuinely history-dependent, so it counts as a positive"),
+    ("c11-negative-control-wide-lock", "C11", "pydbml/parser/parser.py",
+     "            self._syntax.parse_string(self.source, parseAll=True)\n        self.build_database()",
+     "            self._syntax.parse_string(self.source, parseAll=True)\n            self.build_database()", "passes",
+     "NEGATIVE CONTROL: the grammar lock also covers build_database; behaviour-preserving, the check must stay silent"),
     # ---------------- C10
     ("c10-full-name-cache", "C10", "pydbml/renderer/sql/default/utils.py",
      "def get_full_name_for_sql(model: Union[Table, Enum]) -> str:\n    if model.schema == 'public':",
@@ -107,6 +112,22 @@ MUTANTS = [
      "            sql_renderer=self._sql_renderer,\n            dbml_renderer=self._dbml_renderer,\n        )\n        for enum_bp",
      "            sql_renderer=self._sql_renderer,\n        )\n        for enum_bp", "passes",
      "dbml renderer passed to the parser is not forwarded to the Database"),
+    # ---------------- C17
+    ("c17-revert-inline-mixed-fix", "C17", "GIT:daaddf0", None, None, "passes", "revert of the inline mixed-reference fix"),
+    ("c17-no-validate-in-table1", "C17", "pydbml/_classes/reference.py",
+     "    def table1(self) -> Optional[Table]:\n        self._validate()\n", "    def table1(self) -> Optional[Table]:\n",
+     "passes", "table1 no longer validates"),
+    ("c17-no-validate-for-sql", "C17", "pydbml/renderer/sql/default/reference.py",
+     "    validate_for_sql(model)\n\n    if model.type == MANY_TO_MANY:", "    if model.type == MANY_TO_MANY:", "passes",
+     "detached endpoint not refused in SQL"),
+    ("c17-enum-schema-not-required", "C17", "pydbml/_classes/enum.py",
+     "    required_attributes = ('name', 'schema', 'items')", "    required_attributes = ('name', 'items')", "passes",
+     "enum without schema renders"),
+    ("c17-table-get-refs-empty", "C17", "pydbml/_classes/table.py",
+     "        if not self.database:\n            raise UnknownDatabaseError('Database for the table is not set')\n        return [ref for ref",
+     "        if not self.database:\n            return []\n        return [ref for ref", "fails?", "detached table answers []"),
+    ("c17-column-name-not-required", "C17", "pydbml/_classes/column.py",
+     "    required_attributes = ('name', 'type')", "    required_attributes = ('type',)", "passes?", "nameless column renders"),
     # ---------------- C12
     ("c12-no-bom-parse-file", "C12", "pydbml/parser/parser.py",
      "                source = f.read()\n        source = remove_bom(source)\n        parser = PyDBMLParser(source)",
